@@ -84,6 +84,10 @@ func (c *Channel) startWatching() (watcher.StatesPub, watcher.AdjudicatorSub, er
 	if err != nil {
 		return nil, nil, errors.WithMessage(err, "registering channel with the watcher")
 	}
+	// Publish to the watcher from now on. This must happen before the machine
+	// mutex is released: a state that becomes current after the snapshot above
+	// but before the publisher is set would never reach the watcher.
+	c.statesPub = statesPub
 	ok := c.OnCloseAlways(func() {
 		err := c.client.watcher.StopWatching(c.Ctx(), c.ID())
 		if err != nil {
